@@ -36,6 +36,33 @@ func tzifFixed(offsetSec int, abbr string) []byte {
 	return b
 }
 
+// tzifTransition: offset `before` until instant T, `after` from T on (one transition, two types).
+func tzifTransition(beforeSec, afterSec int, T int64) []byte {
+	b := []byte("TZif")
+	b = append(b, 0)
+	b = append(b, make([]byte, 15)...)
+	put := func(n uint32) {
+		var x [4]byte
+		binary.BigEndian.PutUint32(x[:], n)
+		b = append(b, x[:]...)
+	}
+	abbr := "VTA\x00VTB\x00"
+	put(0)                 // ttisgmtcnt
+	put(0)                 // ttisstdcnt
+	put(0)                 // leapcnt
+	put(1)                 // timecnt
+	put(2)                 // typecnt
+	put(uint32(len(abbr))) // charcnt
+	put(uint32(int32(T)))  // transition time
+	b = append(b, 1)       // ... to type 1
+	put(uint32(int32(beforeSec)))
+	b = append(b, 1, 0) // type 0: isdst (summer time ends at T), abbreviation 0
+	put(uint32(int32(afterSec)))
+	b = append(b, 0, 4) // type 1: standard time, abbreviation 4
+	b = append(b, []byte(abbr)...)
+	return b
+}
+
 var tzMu sync.Mutex
 
 // tzFileFor returns the path of a generated TZif file for the offset (minutes).
@@ -54,13 +81,43 @@ func tzFileFor(offMin int) string {
 	return p
 }
 
+// tzTransitionFileFor: a zone whose offset is nowMin at the fixed clock instant and otherMin on the
+// other side of a transition that lies delta seconds away from it (delta < 0: in the past).
+func tzTransitionFileFor(nowMin, otherMin, delta int) string {
+	tzMu.Lock()
+	defer tzMu.Unlock()
+	dir := filepath.Join(theScratch, "tz")
+	os.MkdirAll(dir, 0o755)
+	p := filepath.Join(dir, fmt.Sprintf("tr%+05d_%+05d_%+d", nowMin, otherMin, delta))
+	if _, err := os.Stat(p); err != nil {
+		fixed, _ := strconv.ParseInt(fixedNow, 10, 64)
+		before, after := otherMin, nowMin
+		if delta > 0 {
+			before, after = nowMin, otherMin
+		}
+		if err := os.WriteFile(p, tzifTransition(before*60, after*60, fixed+int64(delta)), 0o644); err != nil {
+			harnessFatal("tz file: %v", err)
+		}
+	}
+	return p
+}
+
 // expandEnv translates the pseudo value TZ=VERIFTZ:<minutes> into a generated file.
 func expandEnv(env []string) []string {
 	out := make([]string, 0, len(env))
 	for _, e := range env {
 		if strings.HasPrefix(e, "TZ=VERIFTZ:") {
-			n, _ := strconv.Atoi(strings.TrimPrefix(e, "TZ=VERIFTZ:"))
-			e = "TZ=" + tzFileFor(n)
+			spec := strings.TrimPrefix(e, "TZ=VERIFTZ:")
+			if f := strings.Split(spec, "/"); len(f) == 3 {
+				// <offset in force now>/<the other offset>/<seconds from now to the transition>
+				now, _ := strconv.Atoi(f[0])
+				other, _ := strconv.Atoi(f[1])
+				delta, _ := strconv.Atoi(f[2])
+				e = "TZ=" + tzTransitionFileFor(now, other, delta)
+			} else {
+				n, _ := strconv.Atoi(spec)
+				e = "TZ=" + tzFileFor(n)
+			}
 		}
 		out = append(out, e)
 	}
